@@ -1073,6 +1073,10 @@ func ParseExecBlock(p *ParserZH, mainIndent int) *syntax.ExecBlock {
 			p.unsetStmtCompleteFlag()
 			if match, _ := p.tryConsume(TypeCatchErrorW); match {
 				execBlock.CatchBlock = append(execBlock.CatchBlock, ParseCatchErrorStmt(p))
+			} else {
+				// only 拦截 blocks may follow a 拦截 block (and no token is consumed here,
+				// so going on would loop forever)
+				panic(p.getInvalidSyntaxPeek())
 			}
 		}
 	})
